@@ -54,5 +54,45 @@ func scenarios(lg *sim.Log, seed int64) int {
 		step(Act{A: "Block", Y: 5})
 		n++
 	}
+	// bonusband: two externally initiated auctions of one collateral denom with an auction bonus; the price of the first one
+	// is walked down second by second, and at every second a closing (over-sized) bid is tried on a branch: somewhere on the
+	// way the collateral left covers the bid but not bid + bonus (the bidder may never be handed more than was seized).
+	for k := 0; k < 2; k++ {
+		cfg := configFor(int(seed)+k, rng)
+		cfg.Bonus = []Frac{fr(1, 10), fr(1, 20)}[k%2]
+		cfg.Duration = 60
+		cfg.DecC, cfg.DecA, cfg.DecS = 1, 1, 1
+		cfg.FundColl = 200000
+		cfg.FundDebt = 30000
+		cfg.Decoy = false
+		w := Setup(cfg)
+		run := fmt.Sprintf("scn:bonusband:%d:%d", seed, k)
+		par := rootNode(lg, w, run)
+		root := par
+		step := func(a Act) Res {
+			rs := w.Do(a)
+			par, _ = w.Record(lg, par, run, root, a, rs)
+			return rs
+		}
+		step(Act{A: "Reserve", U: "u1", D: "ust", X: 5000})
+		// small debts: the penalty stays below 10 units, so the keeper incentive rounds to zero (a closing bid on an external auction with a
+		// positive incentive fails: the incentive is sent to the empty internal-keeper address); collateral scarce enough that the falling
+		// price crosses the point where it no longer covers debt + bonus
+		step(Act{A: "LiqExt", U: "u1", D: "ucm", X: 60, Y: 90})
+		step(Act{A: "LiqExt", U: "u2", D: "ucm", X: 80, Y: 90})
+		for t := 0; t < 62; t++ {
+			step(Act{A: "Block", Y: 1})
+			for _, au := range w.App.NewaucKeeper.GetAuctions(w.Ctx) {
+				if au.AuctionId != 1 {
+					continue
+				}
+				c := w.Fork()
+				a := Act{A: "Bid", U: "u2", V: 1, D: "ust", X: 20000} // u2 is neither the owner (u3) nor the initiator (u1) of auction 1
+				rs := c.Do(a)
+				c.Record(lg, par, run, root, a, rs)
+			}
+		}
+		n++
+	}
 	return n
 }
